@@ -7,7 +7,12 @@ TRUSTED = ["C16 predicate check_c16 (Model/Checks.v): payload decoded by Figure.
 ASSUMPTIONS = ["pixel dimensions are read from PNG / JPEG headers; EMF falls back to 96 dpi of the display size, as the mechanism anchor says"]
 
 
+_GRID = []
+
+
 def generate(g, i):
+    if i < len(_GRID):
+        return _GRID[i]
     return g.figure()
 
 
@@ -20,4 +25,7 @@ def extra_fn(spec, doc, ok, out):
 
 
 def run(ctx):
-    return common.run_docprop(ctx, "c16", generate, None, extra_fn=extra_fn, n_quick=120, n_thorough=1500, shrink_steps=40)
+    import gen
+
+    _GRID[:] = gen.DocGen(ctx["seed"] + 1616).figure_grid(ctx["tier"] == "quick")
+    return common.run_docprop(ctx, "c16", generate, None, extra_fn=extra_fn, n_quick=120 + len(_GRID), n_thorough=1500 + len(_GRID), shrink_steps=40)
